@@ -24,3 +24,23 @@ pub trait DirectLDLSolver<T: FloatT>: DirectLDLSolverReqs<T> + HasLinearSolverIn
     fn solve(&mut self, kkt: &CscMatrix<T>, x: &mut [T], b: &[T]);
     fn refactor(&mut self, kkt: &CscMatrix<T>) -> bool;
 }
+
+#[cfg(feature = "verif")]
+pub(crate) type LDLDataMapView = LDLDataMap;
+
+#[cfg(feature = "verif")]
+pub(crate) fn verif_sparse_maps(map: &LDLDataMap) -> Vec<(String, Vec<Vec<usize>>)> {
+    map.sparse_maps
+        .iter()
+        .map(|sm| match sm {
+            SparseExpansionMap::SOCExpansionMap(m) => (
+                "soc".to_string(),
+                vec![m.u.clone(), m.v.clone(), m.D.to_vec()],
+            ),
+            SparseExpansionMap::GenPowExpansionMap(m) => (
+                "genpow".to_string(),
+                vec![m.p.clone(), m.q.clone(), m.r.clone(), m.D.to_vec()],
+            ),
+        })
+        .collect()
+}
